@@ -19,7 +19,7 @@ Inductive ok_hist : rstate -> N -> list step -> Prop :=
 
 Lemma step_any : forall p r B U s i,
   pinv p r B U -> r_dom (ref_apply r i s) = true -> ok_step r s ->
-  exists B' U', compile_filter (p_cs p ++ [cb_of_step s i]) = B' ++ U'
+  exists B' U', compile_filter (p_cs p ++ [cb_of_step (p_cs p) s i]) = B' ++ U'
                 /\ forall fns, pinv (mk_proc (B' ++ U') fns) (ref_apply r i s) B' U'.
 Proof.
   intros p r B U s i I Hdom Hs. destruct (st_kind s) eqn:Ek.
@@ -83,7 +83,10 @@ Proof.
       specialize (PL g eq_refl).
       apply (proj2 (list_eqb_spec String.eqb String.eqb_eq _ _)). rewrite Hfst.
       (* the new list is the old one plus a plain copy of a live name *)
+      assert (Hns : forall c, In c (p_cs p) -> nostar c).
+      { rewrite (pi_cs _ _ _ _ _ _ I). apply simple_ok_nostar. exact (pinv_simple_ok _ _ _ _ _ _ I). }
       revert Ekept Hdom. unfold ref_apply, cb_of_step. rewrite Ek.
+      rewrite (replace_fields_nostar _ s Hns). cbn [fst snd].
       destruct (is_live (r_live r) (st_name s) && unconstrained s) eqn:El; [|discriminate].
       apply andb_true_iff in El. destruct El as [El Eu].
       unfold unconstrained in Eu. rewrite !andb_true_iff in Eu. destruct Eu as ((Eb & Ea) & Em).
